@@ -2,4 +2,5 @@
 from ..core_check import make
 
 run, replay = make("C12", ["C12_quick.cfg", "C12x_quick.cfg", "C12vp_quick.cfg"], ["C12_thorough.cfg", "C12x_thorough.cfg", ("Sim_all.cfg", {"num": 150, "depth": 30})],
-                   "copies of data, objects and groups (deep and shallow, to any attached parent) followed by edits of copy and source and re-opens; after every step source and copy are compared with the specification (isomorphic subtree, remapped property groups, unchanged source)", neg=None)
+                   "copies of data, objects and groups (deep and shallow, to any attached parent) followed by edits of copy and source and re-opens; after every step source and copy are compared with the specification (isomorphic subtree, remapped property groups, unchanged source)", neg=None,
+                   concat=[("DrillholeConcatExportQuick.cfg", 21, 300)])
